@@ -56,7 +56,9 @@ fn all32(rep: &Report, cli: &Cli) {
             let mut probe = |s: &[u8], expected: u64, fam: &mut Fam| {
                 fam.calls += 1;
                 fam.nontrivial += 1;
+                vkit::out::call_enter();
                 let ok = matches!(lexical_core::parse::<f32>(s), Ok(v) if v.to_bits() as u64 == expected);
+                vkit::out::call_exit();
                 if !ok {
                     let c = slow.get_or_insert_with(|| RoundChecker::<f32>::new("C01", rep, &sub, &spell, "ALL32-judged"));
                     c.check(s);
